@@ -265,9 +265,14 @@ func rootSetups() []rootSetup {
 	}
 }
 
+// elseSeps: what may stand between a loop and its v-else (index 0 = directly adjacent).
 var elseSeps = []string{"", " ", "\n  ", "<!-- c -->", "\n<!-- c -->\n"}
 
-func core1(yield func(Case) bool) {
+// core1 enumerates single loops. full = the whole product; otherwise the three cheapest
+// dimensions (v-else separator beyond "absent / adjacent", which v-if, element or <template>)
+// are not multiplied out but rotated, so that every value of every dimension still meets every
+// root kind x collection x variable name x form.
+func core1(full bool, yield func(Case) bool) {
 	var colls []vals.V
 	for _, k := range collKinds {
 		max := 4
@@ -280,7 +285,7 @@ func core1(yield func(Case) bool) {
 	}
 	colls = append(colls, vals.V{K: "nil[]any"}, vals.Nil(), vals.Missing())
 	apis := []string{"string", "fragment", "load"}
-	i := 0
+	i, rot := 0, 0
 	for _, rs := range rootSetups() {
 		for _, coll := range colls {
 			d := Data{Root: rs.kind, Slots: append(append([]Slot{}, rs.scalars...), Slot{rs.slot, coll})}
@@ -303,58 +308,70 @@ func core1(yield func(Case) bool) {
 					if idx == vn {
 						continue
 					}
-					for ei := -1; ei < 4; ei++ {
-						for _, vif := range []string{"", "item", "index", "index-none"} {
-							if idx == "" && strings.HasPrefix(vif, "index") {
-								continue
-							}
-							for _, tag := range []string{"div", "template"} {
-								i++
-								outer := sscope{}
-								inner := outer.with(vn, elem)
-								if idx != "" {
-									inner = inner.with(idx, vals.Int(0))
-								}
-								l := &Loop{ID: "L1", Tag: tag, Idx: idx, Var: vn, Coll: collName, IfFirst: i%2 == 0}
-								if tag != "template" && i%3 != 0 {
-									p, _, _, ok := scalarPaths(inner, d, vn)
-									if ok {
-										l.Bind = p[0]
-									}
-								}
-								switch vif {
-								case "item":
-									p, s, _, _ := scalarPaths(inner, d, vn)
-									if noExpr(p[0]) {
-										continue
-									}
-									c := &Cond{Path: p[0], Op: "!=", Lit: litFor(s[0], 1)}
-									if s[0].K == "bool" {
-										c = &Cond{Path: p[0]}
-									}
-									l.If = c
-								case "index":
-									l.If = &Cond{Path: idx, Op: "!=", Lit: vals.Int(1)}
-								case "index-none":
-									l.If = &Cond{Path: idx, Op: ">", Lit: vals.Int(9)}
-								}
-								names := []string{vn, idx}
-								for _, s := range rs.scalars {
-									names = append(names, s.N)
-								}
-								names = append(names, rs.shadow...)
-								l.Body = []Node{probeOf("p1", inner, d, names, i, nil)}
-								if ei >= 0 {
-									l.Else = &Else{ID: "E1", Sep: elseSeps[(ei+i)%len(elseSeps)], Body: []Node{probeOf("p2", outer, d, names, i, nil)}}
-									if ei == 0 {
-										l.Else.Sep = ""
-									}
-								}
-								c := Case{API: apis[i%3], Pretty: i%4 == 1, Data: d, Prog: []Node{{Loop: l}, probeOf("p3", outer, d, names, i, nil)}}
-								if !yield(c) {
-									return
+					vifs := []string{"", "item"}
+					if idx != "" {
+						vifs = append(vifs, "index", "index-none")
+					}
+					type combo struct {
+						els int // -1 absent, else index into elseSeps
+						vif string
+						tag string
+					}
+					var combos []combo
+					if full {
+						for e := -1; e < len(elseSeps); e++ {
+							for _, vif := range vifs {
+								for _, tag := range []string{"div", "template"} {
+									combos = append(combos, combo{e, vif, tag})
 								}
 							}
+						}
+					} else {
+						for _, e := range []int{-1, 0, 1 + rot%(len(elseSeps)-1)} {
+							for _, vif := range []string{"", vifs[1+rot%(len(vifs)-1)]} {
+								rot++
+								combos = append(combos, combo{e, vif, []string{"div", "template"}[rot/2%2]})
+							}
+						}
+					}
+					for _, cb := range combos {
+						i++
+						outer := sscope{}
+						inner := outer.with(vn, elem)
+						if idx != "" {
+							inner = inner.with(idx, vals.Int(0))
+						}
+						l := &Loop{ID: "L1", Tag: cb.tag, Idx: idx, Var: vn, Coll: collName, IfFirst: i%2 == 0}
+						if cb.tag != "template" && i%3 != 0 {
+							if p, _, _, ok := scalarPaths(inner, d, vn); ok && !noExpr(p[0]) {
+								l.Bind = p[0]
+							}
+						}
+						switch cb.vif {
+						case "item":
+							p, s, _, _ := scalarPaths(inner, d, vn)
+							c := &Cond{Path: p[0], Op: "!=", Lit: litFor(s[0], 1)}
+							if s[0].K == "bool" {
+								c = &Cond{Path: p[0]}
+							}
+							l.If = c
+						case "index":
+							l.If = &Cond{Path: idx, Op: "!=", Lit: vals.Int(1)}
+						case "index-none":
+							l.If = &Cond{Path: idx, Op: ">", Lit: vals.Int(9)}
+						}
+						names := []string{vn, idx}
+						for _, s := range rs.scalars {
+							names = append(names, s.N)
+						}
+						names = append(names, rs.shadow...)
+						l.Body = []Node{probeOf("p1", inner, d, names, i, nil)}
+						if cb.els >= 0 {
+							l.Else = &Else{ID: "E1", Sep: elseSeps[cb.els], Body: []Node{probeOf("p2", outer, d, names, i, nil)}}
+						}
+						c := Case{API: apis[i%3], Pretty: i%4 == 1, Data: d, Prog: []Node{{Loop: l}, probeOf("p3", outer, d, names, i, nil)}}
+						if !yield(c) {
+							return
 						}
 					}
 				}
@@ -641,7 +658,15 @@ func (g *gen) loop(sc sscope, depth int, outerVars []string) []Node {
 	}
 	l.Tag = g.pick([]string{"div", "div", "section", "template"}, "tag")
 	elem := vals.Str("a")
-	if c, ok := sc.resolve(g.d, l.Coll); ok && isSeq(c.K) {
+	c, ok := sc.resolve(g.d, l.Coll)
+	switch {
+	case ok && isSeq(c.K) && len(elems(c)) > 0:
+		elem = elems(c)[0]
+	case strings.HasSuffix(l.Coll, ".children"):
+		elem = mapOf("a", 1) // children are lists of maps, also where the sample item has none
+	case strings.HasSuffix(l.Coll, ".Kids"):
+		elem = recOf("a", "ta", 1)
+	case ok && isSeq(c.K):
 		elem = sampleElem(c)
 	}
 	inner := sc.with(l.Var, elem)
